@@ -42,6 +42,21 @@ impl<'a> Read for CountingReader<'a> {
     }
 }
 
+// A reader that hands out data in short, irregular pieces (1, 2, 3, 5, 7, 4, 6 bytes ...), as pipes and sockets do.
+pub struct ShortReader<'a> { pub data: &'a [u8], pub pos: usize, pub tick: usize }
+
+impl<'a> Read for ShortReader<'a> {
+    fn read(&mut self, buf: &mut [u8]) -> std::io::Result<usize> {
+        const STEPS: [usize; 7] = [1, 2, 3, 5, 7, 4, 6];
+        let k = STEPS[self.tick % STEPS.len()];
+        self.tick += 1;
+        let n = std::cmp::min(std::cmp::min(buf.len(), k), self.data.len() - self.pos);
+        buf[..n].copy_from_slice(&self.data[self.pos..self.pos + n]);
+        self.pos += n;
+        Ok(n)
+    }
+}
+
 pub const SENTINEL: u64 = 0x5E17_17E1_5E17_17E1;
 
 // Serializes `x`, checks the sizes, loads it back from a stream that continues with a sentinel element, and
@@ -81,6 +96,19 @@ pub fn roundtrip<T: Serialize + PartialEq + Debug>(ctx: &mut Ctx, name: &str, x:
                 let b = d(&y);
                 if a != b || a.is_err() {
                     ctx.violation(&format!("{}.load.answers", name), format!("loaded copy answers queries differently ({:?} vs {:?}) on {}", b, a, what()));
+                }
+            }
+            // The same through a reader that returns short reads: consumption must not depend on how the bytes arrive.
+            if stream.len() <= 40_000 {
+                let mut short = ShortReader { data: &stream, pos: 0, tick: bytes.len() };
+                let again = guard(|| T::load(&mut short));
+                let consumed2 = short.pos;
+                match again {
+                    Ok(Ok(z)) => {
+                        if consumed2 != bytes.len() { ctx.violation(&format!("{}.load.consumed.short_reads", name), format!("load through a short-read reader consumed {} of {} bytes on {}", consumed2, bytes.len(), what())); }
+                        if z != *x { ctx.violation(&format!("{}.load.ne.short_reads", name), format!("value loaded through a short-read reader differs on {}", what())); }
+                    },
+                    other => ctx.violation(&format!("{}.load.short_reads", name), format!("load through a short-read reader failed ({:?}) on {}", other.map(|r| r.map(|_| ()).map_err(|e| e.to_string())), what())),
                 }
             }
             // Serializing the loaded copy gives the same bytes.
@@ -143,7 +171,7 @@ fn basic(ctx: &mut Ctx) {
         roundtrip(ctx, "option2", &s0, None, &|| "Some(None)".to_string());
     }
     // Vectors of serializable items.
-    for len in [0usize, 1, 2, 3, 7, 8, 9, 100, 1000] {
+    for len in [0usize, 1, 2, 3, 7, 8, 9, 100, 1000, 4095, 4096, 4097, 8192, 8193, 10_000, 70_000] {
         index += 1;
         if !ctx.mine(index) { continue; }
         if !ctx.begin_case() { continue; }
@@ -254,7 +282,7 @@ fn bitvectors(ctx: &mut Ctx) {
         if !ctx.mine(index) { continue; }
         if !ctx.begin_case() { continue; }
         let mut rng = ctx.rng(0xC6_3000 + index);
-        let n = match k % 7 { 0 => 0, 1 => 1, 2 => gen::BOUNDARY_LENGTHS[rng.below(21)], 3 => rng.below(200), 4 => 4096 + rng.below(3), 5 => 150_000 + rng.below(1000), _ => rng.below(20000) };
+        let n = match k % 7 { 0 => 0, 1 => 1, 2 => gen::BOUNDARY_LENGTHS[rng.below(21)], 3 => rng.below(200), 4 => 4096 + rng.below(3), 5 => if k % 21 == 5 && !cfg!(miri) { 2_200_000 + rng.below(1000) } else { 150_000 + rng.below(1000) }, _ => rng.below(20000) };
         let d = *rng.pick(&gen::DENSITIES);
         let s = *rng.pick(&gen::SHAPES);
         let bits = gen::bits(&mut rng, n, d, s);
